@@ -93,12 +93,24 @@ RtStep(r) ==
        ELSE IF \E j \in 1..Len(r.out.keys) : r.out.keys[j][6] # HiOff(c) + KeyOffset(c, c.mip, KeyOf(r.out.keys[j]))
             THEN Bad("rt.offsets", HiOff(c))
        ELSE Good
+\* the thumbnail of a texture whose thumbnail was never given pixels (new, or erased): the average
+\* of the level of twice its size (judged when that level's pixels are logged), else the blank image
+ThumbRt(r) ==
+    LET c == r.c
+        src == <<0, SrcSlice(c), IF HasMatch(c) THEN MatchLevel(c) ELSE 0>>
+        exp == IF HasMatch(c) THEN Average2x2(Expected(r, src), PixAt(r, src).w, PixAt(r, src).h, c.lw, c.lh)
+               ELSE BlankImg(c.lw * c.lh)
+    IN IF c.low = "NONE" \/ r.exc # "" \/ (HasMatch(c) /\ ~HasPix(r, src)) THEN Good
+       ELSE IF r.low2 # EncodeImg(c.low, exp, 1) THEN Bad("rt.thumb.bytes", EncodeImg(c.low, exp, 1))
+       ELSE IF r.lowout # QuantImg(c.low, exp) THEN Bad("rt.thumb.out", QuantImg(c.low, exp))
+       ELSE Good
 \* a record is judged clause by clause; structure first, then pixels, then the re-save
 RtFull(r) ==
     LET a == RtStep(r) IN
     IF ~a.ok /\ a.clause # "rt.keys.lastlevel" THEN a
     ELSE LET p == IF Len(r.pix) > 0 THEN PixVerdict(r) ELSE Good IN
          IF ~p.ok THEN p
+         ELSE IF ~ThumbRt(r).ok THEN ThumbRt(r)
          ELSE IF ~a.ok THEN a
          ELSE IF r.exact # 0 - 1 THEN Bad("px.exact", r.exact)
          ELSE IF ~r.resave THEN Bad("rt.resave", TRUE)
@@ -126,11 +138,13 @@ SynthStep(r) ==
 
 \* --- read -> (load | look | compute | clear)* -> save -> read
 ApplyOp(lv, o) == CASE o.op = "load" -> HLoad(lv, o.sel)
-                    [] o.op = "look" -> HAccess(lv, o.m)
-                    [] o.op = "poke" -> HPoke(lv, o.m)
+                    [] o.op = "look" -> HAccess(lv, o.m, FALSE)
+                    [] o.op = "loadall" -> HLoad(lv, "all")
+                    [] o.op = "poke" -> HPoke(lv, o.m, FALSE)
                     [] o.op = "compute" -> HCompute(lv)
                     [] o.op = "clear" -> HClear(lv, o.after)
 OpOK(lv, o) == CASE o.op = "load" -> CanLoad(lv, o.sel)
+                 [] o.op = "loadall" -> CanLoad(lv, "all")
                  [] o.op = "look" -> o.m < Len(lv) /\ lv[o.m + 1].st # "cleared"
                  [] o.op = "poke" -> o.m < Len(lv) /\ lv[o.m + 1].st # "cleared"
                  [] o.op = "compute" -> TRUE
@@ -139,27 +153,52 @@ RECURSIVE RunOps(_, _, _)
 RunOps(lv, ops, j) == IF j > Len(ops) THEN lv ELSE RunOps(ApplyOp(lv, ops[j]), ops, j + 1)
 RECURSIVE OpsOK(_, _, _)
 OpsOK(lv, ops, j) == j > Len(ops) \/ (OpOK(lv, ops[j]) /\ OpsOK(ApplyOp(lv, ops[j]), ops, j + 1))
-\* the images in memory, one per stored entry; <<>> marks an erased frame
+\* The texture in memory: imgs one image per stored entry (<<>> marks an erased frame), has = the
+\* frame's pixels are in memory (a frame that was read is lazy until loaded), th = the thumbnail
+\* (img <<>> when erased or absent; lazy = still as read, the stored bytes win on save)
 Idx(r, k) == CHOOSE j \in 1..Len(r.stored) : r.stored[j].k = k
 Above(k) == <<k[1], k[2], k[3] - 1>>
-RECURSIVE Regen(_, _, _)
-\* compute_mipmaps(): erased frames of level m become the average of the frame above, largest level first
-Regen(r, imgs, m) ==
-    IF m >= r.c.mip THEN imgs
-    ELSE Regen(r, [j \in 1..Len(imgs) |->
-                     IF r.stored[j].k[3] = m /\ imgs[j] = <<>>
-                     THEN LET u == Idx(r, Above(r.stored[j].k)) IN
-                          Average2x2(imgs[u], r.stored[u].w, r.stored[u].h, r.stored[j].w, r.stored[j].h)
-                     ELSE imgs[j]], m + 1)
-StepImg(r, imgs, o) ==
-    CASE o.op = "poke" -> [imgs EXCEPT ![Idx(r, <<0, 0, o.m>>)][1] = o.px]        \* frame 0, slice 0, pixel (0, 0)
-      [] o.op = "clear" -> [j \in 1..Len(imgs) |-> IF r.stored[j].k[3] > o.after THEN <<>> ELSE imgs[j]]
-      [] o.op = "compute" -> Regen(r, imgs, 1)
-      [] OTHER -> imgs                                                            \* loading and looking change nothing
-RECURSIVE RunImgs(_, _, _)
-RunImgs(r, imgs, j) == IF j > Len(r.ops) THEN imgs ELSE RunImgs(r, StepImg(r, imgs, r.ops[j]), j + 1)
-\* what save() must write: the images as they are, erased ones regenerated
-FinalImgs(r) == Regen(r, RunImgs(r, [j \in 1..Len(r.stored) |-> DecodeImg(r.c.fmt, r.stored[j].raw)], 1), 1)
+LevelOf(r, j) == r.stored[j].k[3]
+\* compute_mipmaps(), thumbnail part: regenerated from the level of twice its size when that
+\* level's frame 0 (depth 0 / FRONT face) has pixels in memory and the thumbnail is not lazy
+ThumbS(r, S) ==
+    IF ~HasMatch(r.c) THEN S
+    ELSE LET src == Idx(r, <<0, SrcSlice(r.c), MatchLevel(r.c)>>) IN
+         IF ~S.has[src] \/ S.th.lazy THEN S
+         ELSE [S EXCEPT !.th.img = Average2x2(S.imgs[src], r.stored[src].w, r.stored[src].h, r.c.lw, r.c.lh)]
+RECURSIVE RegenS(_, _, _)
+\* erased frames of level m become the average of the frame above (which is loaded for it), largest level first
+RegenS(r, S, m) ==
+    IF m >= r.c.mip THEN S
+    ELSE LET todo == {j \in 1..Len(S.imgs) : LevelOf(r, j) = m /\ S.imgs[j] = <<>>}
+             parents == {Idx(r, Above(r.stored[j].k)) : j \in todo}
+         IN RegenS(r, [S EXCEPT !.imgs = [j \in 1..Len(S.imgs) |->
+                                   IF j \in todo
+                                   THEN LET u == Idx(r, Above(r.stored[j].k)) IN
+                                        Average2x2(S.imgs[u], r.stored[u].w, r.stored[u].h, r.stored[j].w, r.stored[j].h)
+                                   ELSE S.imgs[j]],
+                                 !.has = [j \in 1..Len(S.has) |-> S.has[j] \/ j \in todo \/ j \in parents]], m + 1)
+ComputeS(r, S) == ThumbS(r, RegenS(r, [S EXCEPT !.has = [j \in 1..Len(S.has) |-> S.has[j] \/ LevelOf(r, j) = 0]], 1))
+StepS(r, S, o) ==
+    CASE o.op = "poke" -> [S EXCEPT !.imgs[Idx(r, <<0, 0, o.m>>)][1] = o.px,        \* frame 0, slice 0, pixel (0, 0)
+                                    !.has[Idx(r, <<0, 0, o.m>>)] = TRUE]
+      [] o.op = "look" -> [S EXCEPT !.has[Idx(r, <<0, 0, o.m>>)] = TRUE]
+      [] o.op = "load" -> [S EXCEPT !.has = [j \in 1..Len(S.has) |-> S.has[j] \/ Sel(o.sel, LevelOf(r, j))]]
+      [] o.op = "loadall" -> [S EXCEPT !.has = [j \in 1..Len(S.has) |-> TRUE], !.th.lazy = FALSE]
+      [] o.op = "clear" -> [S EXCEPT !.imgs = [j \in 1..Len(S.imgs) |-> IF LevelOf(r, j) > o.after THEN <<>> ELSE S.imgs[j]],
+                                     !.has = [j \in 1..Len(S.has) |-> S.has[j] /\ LevelOf(r, j) <= o.after],
+                                     !.th = [img |-> <<>>, lazy |-> FALSE]]
+      [] o.op = "compute" -> ComputeS(r, S)
+RECURSIVE RunS(_, _, _)
+RunS(r, S, j) == IF j > Len(r.ops) THEN S ELSE RunS(r, StepS(r, S, r.ops[j]), j + 1)
+\* what save() must write: erased frames regenerated, the thumbnail regenerated or, if it has
+\* no pixels at all, the blank image
+FinalS(r) ==
+    LET S0 == [imgs |-> [j \in 1..Len(r.stored) |-> DecodeImg(r.c.fmt, r.stored[j].raw)],
+               has |-> [j \in 1..Len(r.stored) |-> FALSE],
+               th |-> [img |-> IF r.c.low = "NONE" THEN <<>> ELSE DecodeImg(r.c.low, r.low), lazy |-> TRUE]]
+        S == ComputeS(r, RunS(r, S0, 1))
+    IN IF r.c.low # "NONE" /\ S.th.img = <<>> THEN [S EXCEPT !.th.img = BlankImg(r.c.lw * r.c.lh)] ELSE S
 HistStep(r) ==
     LET c == r.c
         f == c.fmt
@@ -167,7 +206,8 @@ HistStep(r) ==
         lv0 == LvInit(c.mip)
         lv == RunOps(lv0, r.ops, 1)
         got == {KeyOf(r.keys[j]) : j \in 1..Len(r.keys)}
-        fin == FinalImgs(r)
+        FS == FinalS(r)
+        fin == FS.imgs
         badraw == {j \in 1..Len(r.pix) : r.pix[j].raw # EncodeImg(f, fin[Idx(r, r.pix[j].k)], 1)}
         badout == {j \in 1..Len(r.pix) : r.pix[j].out # QuantImg(f, fin[Idx(r, r.pix[j].k)])}
     IN IF ~OpsOK(lv0, r.ops, 1) THEN Bad("hist.input", 0)
@@ -182,6 +222,8 @@ HistStep(r) ==
                 Bad("hist.bytes", [k |-> r.pix[j].k, raw |-> EncodeImg(f, fin[Idx(r, r.pix[j].k)], 1)])
        ELSE IF badout # {} THEN LET j == CHOOSE q \in badout : TRUE IN
                 Bad("hist.out", [k |-> r.pix[j].k, out |-> QuantImg(f, fin[Idx(r, r.pix[j].k)])])
+       ELSE IF c.low # "NONE" /\ r.low2 # EncodeImg(c.low, FS.th.img, 1) THEN Bad("hist.thumb.bytes", EncodeImg(c.low, FS.th.img, 1))
+       ELSE IF c.low # "NONE" /\ r.lowout # QuantImg(c.low, FS.th.img) THEN Bad("hist.thumb.out", QuantImg(c.low, FS.th.img))
        ELSE Good
 
 Verdict(r) == CASE r.k = "ctor" -> CtorStep(r)
